@@ -295,7 +295,7 @@ def run(ctx):
     if ctx.thorough():
         n_rand, n_cont, n_long = 9000, 3000, 1200
     else:
-        n_rand, n_cont, n_long = 900, 300, 120
+        n_rand, n_cont, n_long = 2400, 800, 300
     progs = [S.gen_program(rng, "c10") for _ in range(n_rand)]
     for p in progs[:2]:
         ctx.sample(p)
